@@ -222,6 +222,8 @@ def ipv4_strings(tier, rng):
             q[pos] = o
             out.append(b".".join(q))
     out += list(words([b"1", b"0", b".", b"a", b":"], 7 if tier == "quick" else 8, 0))
+    for n in (8, 9, 16, 255, 256, 257, 259, 260, 261, 512, 516):          # octet counts that wrap an 8-bit counter back to four
+        out.append(b".".join([b"1", b"2"] * (n // 2) + [b"1"] * (n % 2)))
     for n in range(0, 7):
         out.append(b".".join([b"1"] * n))
         out.append(b".".join([b"1"] * n) + b".")
@@ -283,6 +285,14 @@ def literal_domains(tier, rng):
         if tier != "quick":
             out.append(b"[" + a + b"]")
     out += [b"[", b"[]", b"[[]]", b"[1.2.3.4]]", b"[[1.2.3.4]", b"[1.2.3.4][", b"[]1.2.3.4]"]
+    # the longest textual forms (45 octets and more) with something after them
+    full = [b"1111:2222:3333:4444:5555:6666:255.255.255.255", b"1111:2222:3333:4444:5555:6666:7777:8888", b"::1.2.3." + b"0" * 40 + b"4"]
+    for a in full:
+        for junk in (b"", b"x", b"%eth0", b"]", b".1", b"9", b"/64", b":1"):
+            out += [b"[IPv6:" + a + junk + b"]", b"[" + a + junk + b"]"]
+    for n in (255, 256, 259, 260, 261, 516):
+        q = b".".join([b"1", b"2"] * (n // 2) + [b"1"] * (n % 2))
+        out += [b"[" + q + b"]", b"[IPv6:::ffff:" + q + b"]"]
     # every byte value at every position of the tag (a hand-written case fold maps control bytes onto '6' and ':')
     tag = b"IPv6:"
     for pos in range(5):
@@ -431,6 +441,13 @@ def email_strings(tier, rng):
     # local parts whose length is small only modulo 256 / 65536, and very long local parts in front of a short domain
     for ll in (255, 256, 257, 300, 310, 320, 321, 400, 512, 576, 65536 + 10):
         out += [b"a" * ll + b"@example.com", b"a" * ll + b"@[192.0.2.1]"]
+    # a maximum-length local part whose only defect is its LAST octet, and maximum-length quoted strings (a 64-byte copy buffer loses one)
+    for bad in (b".", b" ", b"(", b"\x01", b"\xe9", b"\\", b'"', b"@"):
+        out += [b"a" * 63 + bad + b"@b.com", b"a." * 31 + b"a" + bad + b"@b.com"]
+    out += [b'"' + b"a" * 62 + b'"@b.com', b'"' + b"a" * 61 + b'"@b.com', b'"' + b"a" * 63 + b'"@b.com', b"a" * 62 + b".b@b.com"]
+    # domains far beyond every limit whose beginning is a perfectly good name (a bounded copy must not make them valid)
+    sh = "\u00ad".encode()
+    out += [b"u@abc.com" + sh * 508 + b"!!!", b"u@abc.com" + sh * 600, b"u@" + long_host(253) + b"." + b"x" * 800, b"u@" + long_host(200) + b"!" * 900, b"u@b.com" + b"." + b"a" * 1100]
     # both halves long at once: every limit is per half, there is no limit on the sum
     for ll in (1, 10, 32, 63, 64, 65):
         for dl in (150, 190, 191, 192, 193, 200, 245, 246, 247, 252, 253, 254, 255, 256):
